@@ -130,6 +130,7 @@ class World(object):
         self.terminated = False
         self.sent = []              # PDUs collected (as the run loop would send them)
         self.waits = 0
+        self.after_dispatch = None
         c = llcmod.LogicalLinkController(miu=248, sec=False, agf=agf)
         c.cfg["send-miu"] = 128
         c.cfg["send-agf"] = agf
@@ -217,6 +218,8 @@ class World(object):
         except pdu.DecodeError:
             return "decode-error"
         self.llc.dispatch(p)
+        if self.after_dispatch is not None:
+            self.after_dispatch()
         for _ in range(64):
             q = self.llc.collect()
             if q is None:
@@ -278,43 +281,49 @@ def canon(p):
     if n == "FRMR":
         return "FRMR %d %d %d %d %d %d %d %d %d %d" % (p.dsap, p.ssap, p.rej_flags, p.rej_ptype, p.ns, p.nr, p.vs, p.vr,
                                                       p.vsa, p.vra)
-    return "%s %d %d" % (n, p.dsap, p.ssap)
+    return "P%d %d %d" % (p.ptype, p.dsap, p.ssap)
+
+
+def canon_list(ps):
+    return "|".join(canon(p) for p in ps) or "-"
+
+
+STATES = ("SHUTDOWN", "CLOSED", "LISTEN", "CONNECT", "ESTABLISHED", "DISCONNECT", "CLOSE_WAIT")
+
+
+def sock_spec(s):
+    """socket as the model driver reads it: k:st:addr:peer:bound:rq:rbuf:rmiu:vs:vsa:vr:vra"""
+    k = "r" if isinstance(s, tco.RawAccessPoint) else "l" if isinstance(s, tco.LogicalDataLink) else "d"
+    d = isinstance(s, tco.DataLinkConnection)
+    return "%s:%d:%d:%s:%d:%d:%d:%d:%d:%d:%d:%d" % (
+        k, STATES.index(str(s.state)), s.addr if s.addr is not None else 0, "-" if s.peer is None else s.peer,
+        s.addr is not None, len(s.recv_queue), s.recv_buf, s.recv_miu,
+        s.send_cnt if d else 0, s.send_ack if d else 0, s.recv_cnt if d else 0, s.recv_ack if d else 0)
+
+
+def sock_after(s):
+    d = isinstance(s, tco.DataLinkConnection)
+    return "%d:%d:%d:%d:%s" % (STATES.index(str(s.state)), len(s.recv_queue), s.send_ack if d else 0,
+                               s.recv_cnt if d else 0, canon_list(s.send_queue))
 
 
 # -------------------------------------------------------------------- run loop over a scripted MAC
-class ScriptMacI(nfc.dep.Initiator):
-    """an activated Initiator whose exchange() hands out the scripted LLC octets;
-    items: bytes | 'T' TimeoutError | 'X' TransmissionError | 'P' ProtocolError | 'B' BrokenLinkError | 'N' None"""
+def script_mac(initiator, script):
+    """an activated nfc.dep.Initiator / Target (exact type: `terminate()` compares `type(self.mac)`)
+    whose exchange() hands out the scripted LLC octets; items: bytes | 'T' TimeoutError |
+    'X' TransmissionError | 'P' ProtocolError | 'B' BrokenLinkError | 'N' None | an exception instance"""
+    mac = (nfc.dep.Initiator if initiator else nfc.dep.Target)(None)
+    mac.script = collections.deque(script)
+    mac.sent = []
+    mac.deactivated = 0
+    mac.rwt = 0.01
+    mac.n = 0
+    mac.exchange = lambda send_data, timeout: _mac_exchange(mac, send_data)
 
-    def __init__(self, script):
-        nfc.dep.Initiator.__init__(self, None)
-        self.script = collections.deque(script)
-        self.sent = []
-        self.deactivated = 0
-        self.rwt = 0.01
-        self.n = 0
-
-    def exchange(self, send_data, timeout):
-        return _mac_exchange(self, send_data)
-
-    def deactivate(self, release=True):
-        self.deactivated += 1
-
-
-class ScriptMacT(nfc.dep.Target):
-    def __init__(self, script):
-        nfc.dep.Target.__init__(self, None)
-        self.script = collections.deque(script)
-        self.sent = []
-        self.deactivated = 0
-        self.rwt = 0.01
-        self.n = 0
-
-    def exchange(self, send_data, timeout):
-        return _mac_exchange(self, send_data)
-
-    def deactivate(self, data=bytearray()):
-        self.deactivated += 1
+    def deactivate(*a, **k):
+        mac.deactivated += 1
+    mac.deactivate = deactivate
+    return mac
 
 
 def _mac_exchange(self, send_data):
@@ -335,6 +344,8 @@ def _mac_exchange(self, send_data):
         raise nfc.clf.BrokenLinkError()
     if it == "N":
         return None
+    if isinstance(it, BaseException):
+        raise it
     return bytearray(it)
 
 
@@ -351,7 +362,7 @@ def run_loop(initiator, script, with_sockets=True, terminate_after=None):
         c = w.llc
         w.mode = "loop"
     c.link.CONNECTED = True
-    mac = (ScriptMacI if initiator else ScriptMacT)(script)
+    mac = script_mac(initiator, script)
     c.mac = mac
     calls = [0]
 
